@@ -379,7 +379,8 @@ def cut_loops(func, module, summary_hook, which=None, extra_ns=None, cut_for=Fal
                         return n
                 body = [B().visit(x) for x in st.body]
                 # loop variable: a fresh symbolic iteration index is not needed by any cut loop here (unused in bodies)
-                ex = ast.If(ast.Call(ast.Name('__vp_exhausted', ast.Load()), [ast.Constant(lid)], []),
+                rng_args = list(st.iter.args) if isinstance(st.iter, ast.Call) else []
+                ex = ast.If(ast.Call(ast.Name('__vp_exhausted', ast.Load()), [ast.Constant(lid), ast.Tuple(rng_args, ast.Load())], []),
                             [ast.Pass()],
                             [ast.Try(body=body + [back],
                                      handlers=[ast.ExceptHandler(ast.Name('__VpBreak', ast.Load()), None, [ast.Pass()])],
@@ -408,8 +409,9 @@ def cut_loops(func, module, summary_hook, which=None, extra_ns=None, cut_for=Fal
         LOOPS[lid]['body_pc'] = list(S.ctx.pc)
         raise PathEnd(lid)
 
-    def exhausted(lid):
+    def exhausted(lid, bounds=()):
         # fork: True = the for-range ran out of iterations (no break), False = one more iteration
+        LOOPS.setdefault(lid, {})['range'] = tuple(bounds)          # the arguments of range(...): the iteration cap of the loop
         return bool(SymB(z3.Bool('exhausted!' + lid)))
     class _Unbound:
         def __repr__(s):
